@@ -145,7 +145,7 @@ def real_set_termini(text, neutraln, neutralc):
     return before, bits, after, bio
 
 
-def check_termini(after, bits_first_pass, bio):
+def check_termini(after, bits_first_pass, bio, neutral=None):
     """property clause on the real result: per chain exactly the first amino residue is the
     N-terminus and exactly the last one the C-terminus (none for cyclic chains)"""
     pr = []
@@ -189,6 +189,16 @@ def check_termini(after, bits_first_pass, bio):
             ct = {p for p in pts if p in ("CTERM", "NEUTRAL-CTERM")}
             if (i not in exp_n and nt) or (i not in exp_c and ct) or len(nt) > 1 or len(ct) > 1 or (i in exp_n and not nt) or (i in exp_c and not ct):
                 pr.append(({"kind": "terminus-patch"}, f"chain {ch_i} residue {i}: patches {pts}"))
+            elif neutral is not None:
+                # the kind of terminus is the one the run asked for (an N-terminal proline is neutralised on its own)
+                nn, nc = neutral
+                want_n = "NEUTRAL-NTERM" if nn else "NTERM"
+                want_c = "NEUTRAL-CTERM" if nc else "CTERM"
+                is_pro = real_chain.residues[i].name == "PRO"
+                if i in exp_n and nt and nt != {want_n} and not (is_pro and nt == {"NEUTRAL-NTERM"}):
+                    pr.append(({"kind": "terminus-kind", "end": "N"}, f"chain {ch_i} residue {i}: N-terminus patched {sorted(nt)} with neutraln={nn}"))
+                if i in exp_c and ct and ct != {want_c}:
+                    pr.append(({"kind": "terminus-kind", "end": "C"}, f"chain {ch_i} residue {i}: C-terminus patched {sorted(ct)} with neutralc={nc}"))
     return pr
 
 
@@ -225,7 +235,7 @@ def tie_termini(ctx: Ctx, n: int):
                 if model != after:
                     ctx.disagree("set_termini", {"pdb": text, "neutraln": nn, "neutralc": nc}, str(model)[:600], str(after)[:600])
         if not isinstance(after, str):
-            for sig, msg in check_termini(after, bits, bio):
+            for sig, msg in check_termini(after, bits, bio, (nn, nc)):
                 sig = {**sig, "features": ",".join(sorted(feats))}
                 k = tuple(sorted(sig.items()))
                 if k not in seen:
@@ -280,14 +290,14 @@ def run(ctx: Ctx):
     rng = ctx.rng
     ctx.extra["rule"] = (
         "(1) chain layouts: 1-4 chains of 1-6 residues, blank chain ids, internal OXT, trailing water/ligand/NME, the cyclic test peptide, neutral-terminus flags; "
-        "(2) peptide windows with every residue type forced in turn at first/middle/last position, pre-named states, two chains, waters x six force fields; "
+        "(2) every pre-named protonation state at the first and last chain position and disulfide pairs (terminal cysteines included), then peptide windows with every residue type forced in turn at first/middle/last position, pre-named states, two chains, waters x six force fields; "
         "a case is (layout feature set, flags) or (ff, set of final force-field residue names); distinct counts distinct tuples"
     )
     tie_termini(ctx, ctx.scale(60, 2500))
     n = ctx.scale(60, 2500)
     seen = set()
-    for ci in range(n):
-        text, ff, opts, feats = c01.gen_case(rng)
+    cases = list(c01.sweep_cases(rng)) + [c01.gen_case(rng) for _ in range(n)]
+    for ci, (text, ff, opts, feats) in enumerate(cases):
         r = G.run_pipeline(text, opts)
         ctx.evaluations += 1
         ctx.count("pipeline-outcome", r.status)
